@@ -160,11 +160,89 @@ static void run_load(uint64_t idx, pv_rng* rng) {
     PV_DISTINCT("nontrivial", pv_mix(0xd, pv_mseed_hash(&m)));
 }
 
+/* ---------------------------------------------------------------- (e) near words: one word is the beginning of another
+ * The lists contain short words that are string prefixes of longer ones (act/action, sol/soldado, di'a/diamante: all shorter
+ * than four letters).  Replacing the long word of a valid phrase by the short one, or the reverse, is the substitution a sloppy
+ * matcher is most likely to overlook: every such pair, in every list, in both directions, in plain and in composed form. */
+static int strip_cp(const pv_mlang* L, unsigned w, uint32_t* out) { int m = 0; for (int i = 0; i < L->ncp[w]; ++i) if (!(L->accents && pv_is_accent(L->cp[w][i]))) out[m++] = L->cp[w][i]; return m; }
+typedef struct npair { unsigned short a, b; } npair;
+static npair* g_np[PV_MAXLANG]; static int g_nnp[PV_MAXLANG]; static bool g_np_built;
+static void build_pairs(void) {
+    if (g_np_built) return;
+    g_np_built = true;
+    for (int l = 0; l < pv_nlangs; ++l) {
+        pv_mlang* L = &pv_langs[l]; if (!L->lib) continue;
+        static uint32_t st[PV_NWORDS][40]; static int sn[PV_NWORDS];
+        for (unsigned w = 0; w < PV_NWORDS; ++w) { uint32_t t[128]; int n = strip_cp(L, w, t); if (n > 40) n = 40; memcpy(st[w], t, (size_t)n * 4); sn[w] = n; }
+        int cap = 4096; g_np[l] = pv_xmalloc((size_t)cap * sizeof(npair)); g_nnp[l] = 0;
+        for (unsigned a = 0; a < PV_NWORDS; ++a) for (unsigned b = 0; b < PV_NWORDS; ++b)
+            if (a != b && sn[a] < sn[b] && !memcmp(st[a], st[b], (size_t)sn[a] * 4) && g_nnp[l] < cap) { g_np[l][g_nnp[l]].a = (unsigned short)a; g_np[l][g_nnp[l]].b = (unsigned short)b; g_nnp[l]++; }
+        pv_countf((uint64_t)g_nnp[l], "nearwords.pairs.%s", L->key);
+    }
+}
+static uint64_t n_near(void) { return (uint64_t)pv_nlangs * 16; }
+static void run_near(uint64_t idx, pv_rng* rng) {
+    build_pairs();
+    int l = (int)(idx / 16); int part = (int)(idx % 16); pv_mlang* L = &pv_langs[l];
+    if (!L->lib || !g_nnp[l]) return;
+    g_rng = rng;
+    for (int k = part; k < g_nnp[l]; k += 16) {
+        for (int dir = 0; dir < 2; ++dir) {
+            unsigned in_phrase = dir ? g_np[l][k].a : g_np[l][k].b, repl = dir ? g_np[l][k].b : g_np[l][k].a;
+            int p = (int)pv_randn(rng, 16); unsigned coin = pv_gen_coin(rng), d[16]; pv_mseed m;
+            if (!pv_gen_place(rng, p, in_phrase, coin, false, 7, d, &m)) continue;
+            int st = status_of(L, d, coin);
+            if (st != POLYSEED_OK && st != POLYSEED_ERR_UNSUPPORTED) { pv_violation("C02/valid-phrase-rejected", "%s: phrase with '%s' at word %d -> %s", L->name_en, L->word[in_phrase], p + 1, pv_status_name(st)); continue; }
+            d[p] = repl;
+            for (int form = 0; form < (L->compose ? 2 : 1); ++form) {
+                char raw[2048]; pv_m_join_space(L, d, raw, sizeof raw);
+                char* in = form ? pv_nfc_alloc(raw) : pv_exact_str(raw); char* ex = pv_exact_str(in); free(in);
+                polyseed_data* s = NULL; st = pv_api_decode_explicit(ex, coin, L->lib, &s); PV_COUNT("evaluations", 1);
+                if (st != POLYSEED_ERR_CHECKSUM) pv_violation("C02/near-word-substitution-not-detected", "%s: word %d '%s' replaced by '%s' (%s) -> %s", L->name_en, p + 1, L->word[in_phrase], L->word[repl], form ? "composed" : "as published", pv_status_name(st));
+                else PV_COUNT("nearwords.detected", 1);
+                if (st == POLYSEED_OK) pv_api_free(s);
+                s = NULL; st = pv_api_decode(ex, coin, NULL, &s); PV_COUNT("evaluations", 1);
+                pv_mdecode md; pv_m_decode(ex, coin, NULL, 7, &md);
+                if (md.status >= 0 && st != md.status) pv_violation("C02/near-word-substitution-not-detected(auto)", "%s: word %d '%s' replaced by '%s' -> %s, model %s", L->name_en, p + 1, L->word[in_phrase], L->word[repl], pv_status_name(st), pv_status_name(md.status));
+                if (st == POLYSEED_OK) pv_api_free(s);
+                free(ex);
+            }
+        }
+    }
+    PV_DISTINCT("nontrivial", pv_mix(0xe, idx));
+}
+
+/* ---------------------------------------------------------------- (f) the same clause while other threads decode their own phrases */
+static bool conc_iter(pv_rng* r, int iter, void* user, char* err, size_t errsz) {
+    (void)iter; (void)user;
+    pv_mlang* L; do { L = &pv_langs[pv_randn(r, (uint32_t)pv_nlangs)]; } while (!L->lib || (!strncmp(L->key, "zh", 2) && pv_randn(r, 8)));
+    pv_mseed m; pv_gen_mseed(r, 7, true, &m); unsigned coin = pv_gen_coin(r), d[16]; pv_m_coeffs(&m, coin, d);
+    bool ok = true;
+    for (int k = 0; k < 8 && ok; ++k) {
+        unsigned e[16]; memcpy(e, d, sizeof e); int want = POLYSEED_OK;
+        if (k >= 1 && k < 5) { int p = (int)pv_randn(r, 16); e[p] = (e[p] + 1 + pv_randn(r, 2046)) & 2047; want = POLYSEED_ERR_CHECKSUM; }
+        if (k >= 5) { int a = (int)pv_randn(r, 16), b = (int)pv_randn(r, 16); if (e[a] == e[b]) continue; unsigned t = e[a]; e[a] = e[b]; e[b] = t; want = POLYSEED_ERR_CHECKSUM; }
+        char raw[2048]; pv_m_join_space(L, e, raw, sizeof raw);
+        polyseed_data* s = NULL; int st = pv_api_decode_explicit(raw, coin, L->lib, &s);
+        if (st != want) { ok = false; snprintf(err, errsz, "%s: %s phrase -> %s", L->name_en, want == POLYSEED_OK ? "valid" : "corrupted", pv_status_name(st)); }
+        if (st == POLYSEED_OK) pv_api_free(s);
+    }
+    return ok;
+}
+static uint64_t n_conc(void) { return pv_scaled(3, 100); }
+static void run_conc(uint64_t idx, pv_rng* rng) {
+    (void)idx;
+    enum { NT = 8, IT = 4000 }; static pv_conc_result res[NT];
+    uint64_t seed = pv_rand64(rng);
+    pv_concurrent(NT, IT, seed, 20, conc_iter, NULL, res);
+    if (pv_concurrent_verdict(res, NT, IT, "C02/differs-under-concurrency", "concurrent.decodes_ok")) PV_DISTINCT("nontrivial", seed);
+}
+
 static void fini(void) {
     pv_set_flag("exhaustive.arith(every field element x 15 positions)", true);
     pv_set_flag("exhaustive.arith_all_2047_wrong_check_words", pv.tier == 1);
 }
 int main(int argc, char** argv) {
-    static const pv_section secs[] = { { "arith", n_arith, run_arith }, { "subst", n_subst, run_subst }, { "unique", n_unique, run_unique }, { "load", n_load, run_load } };
-    return pv_main(argc, argv, "C02", secs, 4, init, fini);
+    static const pv_section secs[] = { { "arith", n_arith, run_arith }, { "subst", n_subst, run_subst }, { "unique", n_unique, run_unique }, { "load", n_load, run_load }, { "nearwords", n_near, run_near }, { "concurrent", n_conc, run_conc } };
+    return pv_main(argc, argv, "C02", secs, 6, init, fini);
 }
